@@ -14,6 +14,7 @@ import (
 	"io"
 	"math/big"
 	"net"
+	"strings"
 	"sync"
 	"testing"
 	"time"
@@ -265,6 +266,21 @@ type attackOutcome struct {
 	AttErr string     `json:"attacker_err,omitempty"`
 }
 
+// reencodePub: the SAME public key in another legal protobuf spelling of the PublicKey message (an
+// unknown field appended, or the two fields in the other order). A verifier that accepts it must still
+// report the peer ID derived from the KEY, not from the bytes it happened to receive.
+func reencodePub(k *sectest.Key, mode string) []byte {
+	b := mustMarshalPub(k)
+	if mode == "unknown-field" {
+		return append(append([]byte(nil), b...), 0x78, 0x01)
+	}
+	// canonical form: 0x08 <type varint (1 byte)> 0x12 <len> <data>
+	if len(b) > 2 && b[0] == 0x08 {
+		return append(append([]byte(nil), b[2:]...), b[:2]...)
+	}
+	return b
+}
+
 func (s *state) attackerNoise() {
 	type variant struct {
 		name     string
@@ -277,6 +293,16 @@ func (s *state) attackerNoise() {
 		{name: "control-valid", valid: true, mk: func(K, X *sectest.Key, _ *pb.NoiseHandshakePayload) noisePayloadFn {
 			return func(st noise.DHKey, _ []byte, _ *pb.NoiseHandshakePayload) []byte {
 				return noisePayload(mustMarshalPub(K), mustSign(K, append([]byte(noisePrefix), st.Public...)))
+			}
+		}},
+		{name: "control-valid-identity-key-reencoded/unknown-field", valid: true, mk: func(K, X *sectest.Key, _ *pb.NoiseHandshakePayload) noisePayloadFn {
+			return func(st noise.DHKey, _ []byte, _ *pb.NoiseHandshakePayload) []byte {
+				return noisePayload(reencodePub(K, "unknown-field"), mustSign(K, append([]byte(noisePrefix), st.Public...)))
+			}
+		}},
+		{name: "control-valid-identity-key-reencoded/fields-reordered", valid: true, mk: func(K, X *sectest.Key, _ *pb.NoiseHandshakePayload) noisePayloadFn {
+			return func(st noise.DHKey, _ []byte, _ *pb.NoiseHandshakePayload) []byte {
+				return noisePayload(reencodePub(K, "fields-reordered"), mustSign(K, append([]byte(noisePrefix), st.Public...)))
 			}
 		}},
 		{name: "copied-signature-of-other-session", needsX: true, mk: func(K, X *sectest.Key, learned *pb.NoiseHandshakePayload) noisePayloadFn {
@@ -429,9 +455,14 @@ func (s *state) attackerNoise() {
 							s.r.Violation("expect:completed-with-unexpected-peer/noise/attacker", id, "victim named X, completed with the attacker", detail)
 						case v.OK:
 							s.r.Count("attacker_controls_accepted", 1)
+							if strings.Contains(vr.name, "reencoded") {
+								s.r.Count("attacker_reencoded_key_sessions_accepted_with_the_keys_id", 1)
+							}
 						default:
 							s.r.Count("attacker_sessions_rejected", 1)
-							if vr.valid && !named && !md.initiator {
+							if strings.Contains(vr.name, "reencoded") {
+								s.r.Count("attacker_reencoded_key_sessions_rejected", 1) // a stricter parser may refuse the spelling
+							} else if vr.valid && !named && !md.initiator {
 								// positive control must be accepted: otherwise the attacker harness itself is broken
 								s.r.Inconclusive(id, "valid control session rejected: "+v.Err)
 							}
@@ -539,6 +570,14 @@ func (s *state) attackerTLS() {
 		{"control-extra-unknown-extension", true, func(K, X *sectest.Key, _ []byte) ([][]byte, *ecdsa.PrivateKey) {
 			ck := newKey()
 			return [][]byte{mkCert(ck, []pkix.Extension{{Id: asn1.ObjectIdentifier{1, 3, 6, 1, 4, 1, 99999, 1}, Value: []byte{5, 0}}, validExt(K, ck, false)})}, ck
+		}},
+		{"control-identity-key-reencoded/unknown-field", true, func(K, X *sectest.Key, _ []byte) ([][]byte, *ecdsa.PrivateKey) {
+			ck := newKey()
+			return [][]byte{mkCert(ck, []pkix.Extension{mkExt(extID, reencodePub(K, "unknown-field"), mustSign(K, append([]byte(tlsPrefix), pkix509(ck.Public())...)), false)})}, ck
+		}},
+		{"control-identity-key-reencoded/fields-reordered", true, func(K, X *sectest.Key, _ []byte) ([][]byte, *ecdsa.PrivateKey) {
+			ck := newKey()
+			return [][]byte{mkCert(ck, []pkix.Extension{mkExt(extID, reencodePub(K, "fields-reordered"), mustSign(K, append([]byte(tlsPrefix), pkix509(ck.Public())...)), false)})}, ck
 		}},
 		{"extension-public-key-substituted", false, func(K, X *sectest.Key, _ []byte) ([][]byte, *ecdsa.PrivateKey) {
 			ck := newKey()
@@ -737,9 +776,14 @@ func (s *state) attackerTLS() {
 							s.r.Violation("expect:completed-with-unexpected-peer/tls/attacker", id, "victim named X, completed with the attacker", detail)
 						case v.OK:
 							s.r.Count("attacker_controls_accepted", 1)
+							if strings.Contains(vr.name, "reencoded") {
+								s.r.Count("attacker_reencoded_key_sessions_accepted_with_the_keys_id", 1)
+							}
 						default:
 							s.r.Count("attacker_sessions_rejected", 1)
-							if vr.valid && md.expect != "X" && vr.name != "extension-duplicated-valid-then-copied" {
+							if strings.Contains(vr.name, "reencoded") {
+								s.r.Count("attacker_reencoded_key_sessions_rejected", 1)
+							} else if vr.valid && md.expect != "X" && vr.name != "extension-duplicated-valid-then-copied" {
 								s.r.Inconclusive(id, "valid control session rejected: "+v.Err)
 							}
 						}
